@@ -36,8 +36,7 @@ theorem hex_roundtrip : ∀ b : UInt8, ishex (hexUpper (b / 16)) = true ∧ ishe
 
 set_option maxRecDepth 100000 in
 theorem escape_byte_facts : ∀ b : UInt8,
-    (shouldEscape b = false → (b == 37) = false ∧ (lowerByte b == 37) = false ∧ isTokenByte b = true) ∧
-    (shouldEscape b = true → lowerByte b = b) := by
+    (shouldEscape b = false → (b == 37) = false ∧ (lowerByte b == 37) = false ∧ isTokenByte b = true ∧ lowerByte b = b) := by
   apply forall_u8; decide
 
 set_option maxRecDepth 100000 in
@@ -67,7 +66,7 @@ theorem escape_roundtrip (k : Str) : pathUnescape (headerKeyEscape k) = some k :
     · have ⟨h1, h2, h3, _⟩ := hex_roundtrip b
       simp [headerKeyEscape, h, pathUnescape_pct, h1, h2, h3, ih]
     · have h' : shouldEscape b = false := by simpa using h
-      have := ((escape_byte_facts b).1 h').1
+      have := (escape_byte_facts b h').1
       simp [headerKeyEscape, h', pathUnescape_cons_ne _ this, ih]
 
 theorem escape_token (k : Str) : (headerKeyEscape k).all isTokenByte = true := by
@@ -79,24 +78,27 @@ theorem escape_token (k : Str) : (headerKeyEscape k).all isTokenByte = true := b
       have : isTokenByte 37 = true := by decide
       simp [headerKeyEscape, h, h7, h8, this, ih]
     · have h' : shouldEscape b = false := by simpa using h
-      have := ((escape_byte_facts b).1 h').2.2
+      have := (escape_byte_facts b h').2.2.1
       simp [headerKeyEscape, h', this, ih]
 
-/-- the lower-cased escaped key still decodes, to the key with its ASCII upper-case letters lower-cased -/
-theorem escape_lower_decodes (k : Str) : pathUnescape (toLower (headerKeyEscape k)) = some (toLower k) := by
+/-- the lower-cased escaped key still decodes, to the key itself: every upper-case letter of the key is %-escaped, so
+    `ToLower` only touches hexadecimal digits -/
+theorem escape_lower_decodes (k : Str) : pathUnescape (toLower (headerKeyEscape k)) = some k := by
   induction k with
   | nil => simp [headerKeyEscape, toLower, pathUnescape]
   | cons b k ih =>
     by_cases h : shouldEscape b = true
     · have ⟨_, _, _, h4, h5, h6, _⟩ := hex_roundtrip b
-      have hb := (escape_byte_facts b).2 h
       have h37 : lowerByte 37 = 37 := by decide
       simp only [toLower] at ih
-      simp [headerKeyEscape, h, toLower, h37, pathUnescape_pct, h4, h5, h6, ih, hb]
+      simp [headerKeyEscape, h, toLower, h37, pathUnescape_pct, h4, h5, h6, ih]
     · have h' : shouldEscape b = false := by simpa using h
-      have := ((escape_byte_facts b).1 h').2.1
+      have hf := escape_byte_facts b h'
+      have h1 := hf.2.1
+      have h2 := hf.2.2.2
       simp only [toLower] at ih
-      simp [headerKeyEscape, h', toLower, pathUnescape_cons_ne _ this, ih]
+      rw [h2] at h1
+      simp [headerKeyEscape, h', toLower, h2, pathUnescape_cons_ne _ h1, ih]
 
 /-! ## CanonicalMIMEHeaderKey -/
 
@@ -415,10 +417,9 @@ theorem wrap_values (token : Str) (up : Bool) (h1 : Headers) (u : Identity)
 
 /-! ## what the upstream decodes -/
 
-/-- **The loss.** The key a kube-apiserver decodes from the header an extra key travels under is the key with its
-    ASCII upper-case letters lower-cased. -/
+/-- The key a kube-apiserver decodes from the header an extra key travels under is the key itself, for every byte string. -/
 theorem extra_key_decoded (k : Str) :
-    unescapeExtraKey (toLower ((canonicalKey (hImpExtraPrefix ++ headerKeyEscape k)).drop hImpExtraPrefix.length)) = toLower k := by
+    unescapeExtraKey (toLower ((canonicalKey (hImpExtraPrefix ++ headerKeyEscape k)).drop hImpExtraPrefix.length)) = k := by
   rw [extraName_eq, List.drop_left', toLower_canonLoop]
   · simp [unescapeExtraKey, escape_lower_decodes]
   · rfl
@@ -471,7 +472,7 @@ theorem values_flatMap_singletons (l : List (Str × List Str)) (f : Str → Str)
 
 theorem decodeExtras_send_extras (up : Bool) (es : List (Str × List Str)) :
     decodeExtras (sendOver up (es.flatMap (fun e => e.2.map (fun v => (canonicalKey (hImpExtraPrefix ++ headerKeyEscape e.1), [v]))))) =
-      es.flatMap (fun e => e.2.map (fun v => (toLower e.1, [carried up v]))) := by
+      es.flatMap (fun e => e.2.map (fun v => (e.1, [carried up v]))) := by
   induction es with
   | nil => simp [sendOver_eq, decodeExtras]
   | cons e es ih =>
@@ -496,13 +497,13 @@ theorem values_send_const (up : Bool) (N : Str) (l : List Str) (n : Str) :
     by_cases h : canonicalKey N = n <;> simp [values, h] at ih ⊢ <;> exact ih
 
 /-- **What is decoded.** Under the same conditions as `wrap_values`: the identity a kube-apiserver reconstructs from
-    what arrives is the context user with every value as the wire carries it and every extra key lower-cased. -/
+    what arrives is the context user with every value as the wire carries it (names, groups, extra keys untouched). -/
 theorem decode_wrapped (token : Str) (up : Bool) (h1 : Headers) (u : Identity)
     (I1 : ∀ e ∈ h1, canonicalKey e.1 = e.1) (I2 : ∀ e ∈ h1, e.1 ≠ hAuthorization)
     (I3 : hget h1 hImpUser = []) :
     let recv := sendOver up (wrapRequest (if up then h1 else bearerAuth token h1) u)
     values recv hImpUser = [carried up u.name] ∧ values recv hImpGroup = u.groups.map (carried up) ∧
-    ∀ k, values (decodeExtras recv) k = values (u.extra.map (fun e => (toLower e.1, e.2.map (carried up)))) k := by
+    ∀ k, values (decodeExtras recv) k = values (u.extra.map (fun e => (e.1, e.2.map (carried up)))) k := by
   intro recv
   have hextraNames : ∀ n, hasPrefix n hImpExtraPrefix = false →
       values (sendOver up (u.extra.flatMap (fun e => e.2.map (fun v => (hImpExtraPrefix ++ headerKeyEscape e.1, [v]))))) n = [] := by
@@ -570,7 +571,7 @@ theorem decode_wrapped (token : Str) (up : Bool) (h1 : Headers) (u : Identity)
       show hasPrefix (canonicalKey hImpGroup) hImpExtraPrefix = false
       decide
     rw [h1', h2']
-    simp [values_flatMap_singletons]
+    simpa using values_flatMap_singletons u.extra id (carried up) k
 
 /-! ## the impersonation filter against the specification on raw header lines -/
 
